@@ -317,7 +317,7 @@ func dt1ExistenceByError(p *core.Prog, rep *core.Report) {
 			}
 		}
 	}
-	if n < 5 {
+	if n < 1 {
 		rep.Unk("VAC", "DT1", "expected >= 5 engine Get calls in package datatype", "", fmt.Sprintf("found %d", n))
 		return
 	}
